@@ -2,7 +2,9 @@ mod common;
 mod py;
 mod c01_05;
 mod c03cli;
+mod c09_12;
 mod c10;
+mod c12cli;
 mod factcheck;
 mod props;
 mod tycmp;
@@ -90,7 +92,10 @@ fn table(prop: &str) -> Option<(RunFn, ReplayFn)> {
         "C03" => (props::c03_run, props::c03_replay),
         "C04" => (props::c04_run, props::c04_replay),
         "C05" => (props::c05_run, props::c05_replay),
+        "C09" => (props::c09_run, props::c09_replay),
         "C10" => (c10::run, c10::replay),
+        "C11" => (props::c11_run, props::c11_replay),
+        "C12" => (props::c12_run, props::c12_replay),
         "C15" => (c15::run, c15::replay),
         "C16" => (c16::run, c16::replay),
         "C18" => (c18::run, c18::replay),
